@@ -3179,7 +3179,15 @@ class Map(TraitType):
         return self.map[value]
 
     def post_setattr(self, object, name, value):
-        setattr(object, name + "_", self.mapped_value(value))
+        try:
+            mapped_value = self.mapped_value(value)
+        except (KeyError, TypeError):
+            # Not one of our keys: inside a compound trait the value was
+            # accepted by another member (or is the compound's default).
+            # As for TraitMap, a TraitError lets TraitCompound move on to
+            # the next mapped member, or to the identity mapping.
+            raise TraitError("Unmappable")
+        setattr(object, name + "_", mapped_value)
 
     def info(self):
         keys = sorted(repr(x) for x in self.map.keys())
@@ -3305,7 +3313,15 @@ class PrefixMap(TraitType):
         return self.map[value]
 
     def post_setattr(self, object, name, value):
-        setattr(object, name + "_", self.mapped_value(value))
+        try:
+            mapped_value = self.mapped_value(value)
+        except (KeyError, TypeError):
+            # Not one of our keys: inside a compound trait the value was
+            # accepted by another member (or is the compound's default).
+            # As for TraitMap, a TraitError lets TraitCompound move on to
+            # the next mapped member, or to the identity mapping.
+            raise TraitError("Unmappable")
+        setattr(object, name + "_", mapped_value)
 
     def info(self):
         return (
